@@ -108,6 +108,21 @@ pub fn nsn() -> Vec<M> {
         n(t("holder"), vec![M::Assertion(Box::new(t("carries")), Box::new(n(inner1.clone(), vec![a("note", "first")])))]),
     ]
 }
+/// an assertion that carries an assertion and whose OWN assertion (its subject) is then obscured - under each of the three kinds, alone and next
+/// to a plain assertion, and one level deeper inside a wrapped envelope. Built through the API (obscure the inner assertion as a whole, then add).
+pub fn decorated_obscured() -> Vec<M> {
+    let t = |s: &str| M::Leaf(V::Text(s.into()));
+    let a = |p: &str, o: &str| M::Assertion(Box::new(t(p)), Box::new(t(o)));
+    let mut out = vec![];
+    for k in [Kind::Elided, Kind::Encrypted, Kind::Compressed] {
+        let inner = a("dp", "do");
+        let dec = M::Node(Box::new(M::Obscured(k, inner.digest(), Some(Box::new(inner.clone())))), vec![a("dq", "dr")]);
+        out.push(M::Node(Box::new(t("ds")), vec![dec.clone()]));
+        out.push(M::Node(Box::new(t("ds")), vec![dec.clone(), a("dk", "dw")]));
+        out.push(M::Node(Box::new(M::Wrapped(Box::new(M::Node(Box::new(t("ds")), vec![dec.clone()])))), vec![a("dk", "dw")]));
+    }
+    out
+}
 pub fn absent_digest() -> D { [0xEE; 32] }
 /// L: leaf values for encoding properties, one per CBOR head-width boundary and per CBORCase arm
 pub fn leaf_alphabet() -> Vec<V> {
